@@ -258,6 +258,8 @@ class Interp:
             # that delivery short (C04: half delivered event)
             if key.endswith(('on_switch_in', 'on_world_load')) and n0:
                 self.requests[n0 - 1]['cut'] = True
+                if key.endswith('on_world_load'):
+                    self.requests[n0 - 1]['cut_load'] = True
             if key.endswith('.on_quit'):
                 self.onquit_cut = True
             if key.endswith('.probe') and n0 and self.cb_ctx:
@@ -608,6 +610,14 @@ class Interp:
         names = [(e[3], e[2]) for e in life]
         want_load = list(self.load_cbs.get(y, [])) if y in self.fresh else []
         got_load = [n for n in names if n[0] in ('on_add', 'on_world_load')]
+        if cut and rec is not None and rec.get('cut_load'):
+            # a load-time callback raised: what is behind it in y's queue
+            # is not modelled any further
+            self.unsure.add(y)
+        if y in self.unsure:
+            self.fresh.discard(y)
+            self.carry.pop(y, None)
+            return sum(1 for n in names if n[0] == 'on_switch_in')
         if Counter(got_load) != Counter(want_load):
             self.fail(('C13', 'C15'), 'load_callbacks', f'entering {y}: '
                       f'load-time callbacks {got_load}, expected '
